@@ -2620,8 +2620,429 @@ Proof.
     eapply Step_equiv; [| |exact S3']. apply in_occ_equiv; occ_tac. occ_tac.
 Qed.
 
+(* ------------------------------------------------------------------ || and |.. *)
+Lemma drop_heap_mono fuel : forall h ws x, occ x (handles_heap (drop_list fuel h ws)) <= occ x (handles_heap h).
+Proof.
+  induction fuel as [|f IH]; intros h ws x; simpl; auto.
+  destruct ws as [|l rest]; auto.
+  destruct (get_cell h l) as [c|] eqn:Hc; auto.
+  destruct (cnt c <=? 1).
+  - eapply Nat.le_trans; [apply IH|].
+    pose proof (occ_heap_set_cell h l (mkcell 0 (ckind c) []) c x Hc). simpl in H. lia.
+  - eapply Nat.le_trans; [apply IH|].
+    rewrite (occ_heap_set_same h l (mkcell (cnt c - 1) (ckind c) (citems c)) c x Hc eq_refl). lia.
+Qed.
+
+Lemma cnt_of_after_drop h v l R F :
+  Inv h ((handles v ++ l :: R) ++ F) -> cnt_of h l = 1 -> cnt_of (drop_val h v) l = 1.
+Proof.
+  intros I C.
+  destruct (drop_val_keep h v (l :: R) F I) as [S _].
+  pose proof (st_inv _ _ _ _ _ S l) as I2. pose proof (I l) as I1. rewrite C in I1.
+  pose proof (drop_heap_mono (sumcnt h) h (handles v) l) as M. fold (drop_locs h (handles v)) in M. fold (drop_val h v) in M.
+  revert I1 I2 M. occ_tac.
+Qed.
+
+Lemma m_put_key_cnt h l d c its dv k v tv G :
+  Inv h ((l :: handles_opt d ++ handles v) ++ G) ->
+  repr h (HRef l d) (VSeq (ckind c) its dv) -> repr h v tv -> get_cell h l = Some c -> cnt c = 1 ->
+  exists c', get_cell (m_put_key h l k v) l = Some c' /\ cnt c' = 1 /\ ckind c' = ckind c.
+Proof.
+  intros I Hr Hv Hc C1.
+  unfold m_put_key. rewrite (items_of_eq _ _ _ Hc).
+  destruct (find_key k (citems c)) as [n|] eqn:FK.
+  - destruct (nth_item n (citems c)) as [old|] eqn:No.
+    + rewrite (put_item_eq h l c n v Hc).
+      set (h2 := set_items h l (set_nth n v (citems c))).
+      assert (Hc2 : get_cell h2 l = Some (mkcell (cnt c) (ckind c) (set_nth n v (citems c)))) by (apply get_cell_set_items_eq; auto).
+      destruct (inplace_update h l c (handles_opt d ++ handles v) (handles old ++ handles_opt d)
+                  (set_nth n v (citems c)) G I Hc C1) as [S2 _].
+      { intro x. pose proof (occ_items_set_nth x (citems c) n v old No). revert H. occ_tac. }
+      fold h2 in S2.
+      assert (I2 : Inv h2 ((handles old ++ l :: handles_opt d) ++ G)) by (eapply Inv_equiv; [|apply S2]; occ_tac).
+      assert (C2 : cnt_of h2 l = 1) by (rewrite (cnt_of_cell _ _ _ Hc2); simpl; auto).
+      pose proof (cnt_of_after_drop h2 old l (handles_opt d) G I2 C2) as C3.
+      destruct (cnt_of_pos_cell (drop_val h2 old) l) as [c3 [Hc3 _]]; [lia|].
+      exists c3. split; auto. split; [rewrite (cnt_of_cell _ _ _ Hc3) in C3; auto|].
+      (* the kind: the body of l is untouched by the drop (it is held by the operation) *)
+      destruct (drop_val_keep h2 old (l :: handles_opt d) G I2) as [S3 K3].
+      assert (Hr2 : repr h2 (HRef l d) (VSeq (ckind c) (set_nth n tv its) dv)).
+      { pose proof (make_mut_unique h l c Hc C1) as MM.
+        destruct (replace_item_ok h l d c its dv n old v tv G h l I Hr Hv Hc No MM) as [Hx _].
+        destruct (repr_ref_inv _ _ _ _ _ _ Hr) as [c0 [Hc0 [_ [Hits Hd]]]].
+        rewrite Hc in Hc0. inversion Hc0; subst c0.
+        change (ckind c) with (ckind (mkcell (cnt c) (ckind c) (set_nth n v (citems c)))).
+        apply R_ref; auto; simpl.
+        - destruct (inplace_update h l c (handles_opt d ++ handles v) (handles old ++ handles_opt d)
+                      (set_nth n v (citems c)) G I Hc C1) as [_ [_ [T1 [T2 [T3 [N1 [U1 U2]]]]]]].
+          { intro x. pose proof (occ_items_set_nth x (citems c) n v old No). revert H. occ_tac. }
+          apply occ_zero_app in U1. destruct U1 as [Ud Uv].
+          apply repr_items_set_nth; [apply T2; auto | apply T1; auto; apply occ_notIn; auto].
+        - destruct (inplace_update h l c (handles_opt d ++ handles v) (handles old ++ handles_opt d)
+                      (set_nth n v (citems c)) G I Hc C1) as [_ [_ [T1 [T2 [T3 [N1 [U1 U2]]]]]]].
+          { intro x. pose proof (occ_items_set_nth x (citems c) n v old No). revert H. occ_tac. }
+          apply occ_zero_app in U1. destruct U1 as [Ud Uv]. apply T3; auto. apply occ_notIn; auto. }
+      assert (Hr3 : repr (drop_val h2 old) (HRef l d) (VSeq (ckind c) (set_nth n tv its) dv)).
+      { apply K3; auto. rewrite handles_ref. apply incl_appl, incl_refl. }
+      destruct (repr_ref_inv _ _ _ _ _ _ Hr3) as [c3' [Hc3' [Kc3 _]]]. rewrite Hc3 in Hc3'. inversion Hc3'; subst. auto.
+    + exists c. auto.
+  - rewrite (get_cell_set_items_eq _ _ _ _ Hc). eexists; split; [reflexivity|]. simpl. auto.
+Qed.
+
+Lemma Frame_items h h' F es ts :
+  Frame h h' F -> incl (handles_items es) F -> repr_items h es ts -> repr_items h' es ts.
+Proof.
+  intros Fr Ie H. induction H; constructor.
+  - apply Fr; auto. intros x Hx. apply Ie. unfold handles_items. simpl. apply in_or_app. left; auto.
+  - apply IHrepr_items. intros x Hx. apply Ie. unfold handles_items. simpl. apply in_or_app. right; auto.
+Qed.
+
+Lemma put_keys_ok moved : forall tmoved h l d c its dv G,
+  Inv h ((l :: handles_opt d ++ handles_items moved) ++ G) ->
+  repr h (HRef l d) (VSeq (ckind c) its dv) -> get_cell h l = Some c -> cnt c = 1 ->
+  repr_items h moved tmoved ->
+  let h' := fold_left (fun hh kv => m_put_key hh l (fst kv) (snd kv)) moved h in
+  repr h' (HRef l d) (VSeq (ckind c) (fold_left (fun acc kv => put_key (fst kv) (snd kv) acc) tmoved its) dv) /\
+  Step h (l :: handles_opt d ++ handles_items moved) G h' (l :: handles_opt d).
+Proof.
+  induction moved as [|[k e] tl IH]; intros tmoved h l d c its dv G I Hr Hc C1 Hm h'.
+  - inversion Hm; subst. simpl. split; auto. unfold handles_items in I |- *. simpl in *. rewrite app_nil_r in *. apply Step_refl; auto.
+  - inversion Hm; subst. simpl in h'. simpl.
+    match goal with H : repr h e ?tt |- _ => rename H into He; rename tt into t end.
+    match goal with H : repr_items h tl ?tt |- _ => rename H into Htl; rename tt into ts end.
+    assert (I1 : Inv h ((l :: handles_opt d ++ handles e) ++ handles_items tl ++ G)).
+    { eapply Inv_equiv; [|exact I]. unfold handles_items. simpl. fold (handles_items tl). occ_tac. }
+    destruct (m_put_key_ok h l d c its dv k e t (handles_items tl ++ G) I1 Hr He Hc C1) as [Hr1 S1].
+    destruct (m_put_key_cnt h l d c its dv k e t (handles_items tl ++ G) I1 Hr He Hc C1) as [c1 [Hc1 [Cc1 Kc1]]].
+    set (h1 := m_put_key h l k e) in *.
+    assert (I2 : Inv h1 ((l :: handles_opt d ++ handles_items tl) ++ G)).
+    { eapply Inv_equiv; [|apply S1]. occ_tac. }
+    assert (Htl1 : repr_items h1 tl ts).
+    { eapply Frame_items; [apply (st_frame _ _ _ _ _ S1)| |exact Htl]. apply incl_appl, incl_refl. }
+    rewrite <- Kc1 in Hr1.
+    destruct (IH ts h1 l d c1 (put_key k t its) dv G I2 Hr1 Hc1 Cc1 Htl1) as [Hr2 S2].
+    rewrite Kc1 in Hr2. split; [exact Hr2|].
+    apply Step_frame in S1.
+    eapply Step_trans; [eapply Step_equiv; [| |exact S1]|exact S2].
+    + apply in_occ_equiv. unfold handles_items. simpl. fold (handles_items tl). occ_tac.
+    + occ_tac.
+Qed.
+
+Lemma union_ok h l1 d1 c1 its1 dv1 l2 d2 c2 its2 dv2 G h1 la h2 lb :
+  Inv h ((handles (HRef l1 d1) ++ handles (HRef l2 d2)) ++ G) ->
+  repr h (HRef l1 d1) (VSeq (ckind c1) its1 dv1) -> repr h (HRef l2 d2) (VSeq (ckind c2) its2 dv2) ->
+  get_cell h l1 = Some c1 -> get_cell h l2 = Some c2 ->
+  make_mut h l1 = (h1, la) -> make_mut h1 l2 = (h2, lb) ->
+  let moved := items_of h2 lb in
+  let h3 := set_items h2 lb [] in
+  let h4 := fold_left (fun hh kv => m_put_key hh la (fst kv) (snd kv)) moved h3 in
+  let h5 := drop_val h4 (HRef lb d2) in
+  repr h5 (HRef la d1) (VSeq (ckind c1) (fold_left (fun acc kv => put_key (fst kv) (snd kv) acc) its2 its1) dv1) /\
+  Step h (handles (HRef l1 d1) ++ handles (HRef l2 d2)) G h5 (handles (HRef la d1)).
+Proof.
+  intros I Ha Hb Hc1 Hc2 MM1 MM2 moved h3 h4 h5. rewrite !handles_ref in *.
+  (* make_mut a *)
+  assert (Ia : Inv h ((l1 :: handles_opt d1 ++ l2 :: handles_opt d2) ++ G)) by (eapply Inv_equiv; [|exact I]; occ_tac).
+  destruct (make_mut_facts h _ G l1 d1 _ h1 la Ia Ha MM1) as [c1x [c1' [Hc1x [Hc1' [K1 [I1 [C1 [Inv1 [S1 [Ha1 B1]]]]]]]]]].
+  rewrite Hc1 in Hc1x. inversion Hc1x; subst c1x. clear Hc1x.
+  assert (Hb1 : repr h1 (HRef l2 d2) (VSeq (ckind c2) its2 dv2)) by (eapply repr_ext; eauto).
+  (* make_mut b *)
+  assert (Ib : Inv h1 ((l2 :: handles_opt d2) ++ la :: handles_opt d1 ++ G)) by (eapply Inv_equiv; [|exact Inv1]; occ_tac).
+  destruct (make_mut_facts h1 _ _ l2 d2 _ h2 lb Ib Hb1 MM2) as [c2x [c2' [Hc2x [Hc2' [K2 [I2 [C2 [Inv2 [S2 [Hb2 B2]]]]]]]]]].
+  assert (K2' : ckind c2' = ckind c2 /\ citems c2' = citems c2).
+  { destruct (B1 l2 c2 Hc2) as [cc [Hcc [Kcc Icc]]]. rewrite Hcc in Hc2x. inversion Hc2x; subst. split; congruence. }
+  destruct K2' as [K2' I2'].
+  assert (Ia2 : Inv h1 ((l2 :: handles_opt d2) ++ la :: (handles_opt d1 ++ G))) by exact Ib.
+  assert (Cla1 : cnt_of h1 la = 1) by (rewrite (cnt_of_cell _ _ _ Hc1'); auto).
+  destruct (still_unique h1 (l2 :: handles_opt d2) la (handles_opt d1 ++ G) h2 (lb :: handles_opt d2) S2 Ia2 Cla1)
+    as [Cla2 [Ula2 [Ula3 Ula4]]].
+  assert (Ha2 : repr h2 (HRef la d1) (VSeq (ckind c1) its1 dv1)) by (eapply repr_ext; eauto).
+  destruct (repr_ref_inv _ _ _ _ _ _ Ha2) as [ca2 [Hca2 [Kca2 [Hitsa2 Hda2]]]].
+  assert (Cca2 : cnt ca2 = 1) by (rewrite (cnt_of_cell _ _ _ Hca2) in Cla2; auto).
+  destruct (repr_ref_inv _ _ _ _ _ _ Hb2) as [cb2 [Hcb2 [Kcb2 [Hitsb2 Hdb2]]]].
+  rewrite Hc2' in Hcb2. inversion Hcb2; subst cb2. clear Hcb2.
+  assert (Nab : la <> lb).
+  { intro; subst lb. rewrite occ_cons_eq in Ula3. discriminate. }
+  (* empty b's cell: its items are now held by the operation *)
+  assert (Em : moved = citems c2') by (unfold moved; apply items_of_eq; auto).
+  assert (Inv2' : Inv h2 ((lb :: handles_opt d2 ++ la :: handles_opt d1) ++ G)).
+  { eapply Inv_equiv; [|exact Inv2]. occ_tac. }
+  destruct (inplace_update h2 lb c2' (handles_opt d2 ++ la :: handles_opt d1)
+              (handles_items moved ++ handles_opt d2 ++ la :: handles_opt d1) [] G Inv2' Hc2' C2)
+    as [S3 [Hc3 [T1 [T2 [T3 [N3 [U3 V3]]]]]]].
+  { intro x. rewrite Em. unfold handles_items at 3. simpl. occ_tac. }
+  fold h3 in S3, Hc3, T1, T2, T3.
+  assert (Hca3 : get_cell h3 la = Some ca2) by (unfold h3; rewrite get_cell_set_items_neq; auto).
+  assert (Ea3 : items_of h3 la = citems ca2) by (apply items_of_eq; auto).
+  (* insert b's entries into a's cell *)
+  assert (Inv3 : Inv h3 ((la :: handles_opt d1 ++ handles_items moved) ++ lb :: handles_opt d2 ++ G)).
+  { eapply Inv_equiv; [|apply S3]. occ_tac. }
+  assert (Ha3 : repr h3 (HRef la d1) (VSeq (ckind ca2) its1 dv1)).
+  { rewrite <- Kca2. apply T1; auto. rewrite handles_ref. simpl. intros [Hx|Hx]; [congruence|].
+    apply occ_zero_app in U3. destruct U3 as [_ U3]. rewrite occ_cons_neq in U3; auto. apply occ_In in Hx. lia. }
+  assert (Hm3 : repr_items h3 moved its2).
+  { rewrite Em. apply T2; auto. }
+  destruct (put_keys_ok moved its2 h3 la d1 ca2 its1 dv1 (lb :: handles_opt d2 ++ G) Inv3 Ha3 Hca3 Cca2 Hm3) as [Hr4 S4].
+  unfold h5, h4. clear h5 h4.
+  set (h4' := fold_left (fun hh kv => m_put_key hh la (fst kv) (snd kv)) moved h3) in *.
+  rewrite <- Kca2 in Hr4.
+  (* release b's (now empty) cell *)
+  assert (Inv4 : Inv h4' ((handles (HRef lb d2) ++ la :: handles_opt d1) ++ G)).
+  { rewrite handles_ref. eapply Inv_equiv; [|apply S4]. occ_tac. }
+  destruct (drop_val_keep h4' (HRef lb d2) (la :: handles_opt d1) G Inv4) as [S5 K5].
+  rewrite handles_ref in S5.
+  split.
+  - apply K5; auto. rewrite handles_ref. apply incl_appl, incl_refl.
+  - eapply Step_trans; [eapply Step_equiv; [| |exact S1]|]. apply in_occ_equiv; occ_tac. intro; reflexivity.
+    assert (S2' : Step h1 (l2 :: handles_opt d2) ((la :: handles_opt d1) ++ G) h2 (lb :: handles_opt d2)) by exact S2.
+    apply Step_frame in S2'.
+    eapply Step_trans; [eapply Step_equiv; [| |exact S2']|]. apply in_occ_equiv; occ_tac. intro; reflexivity.
+    eapply Step_trans; [eapply Step_equiv; [| |exact S3]|]. apply in_occ_equiv; occ_tac. intro; reflexivity.
+    assert (S4' : Step h3 (la :: handles_opt d1 ++ handles_items moved) ((lb :: handles_opt d2) ++ G) h4' (la :: handles_opt d1)) by exact S4.
+    apply Step_frame in S4'.
+    eapply Step_trans; [eapply Step_equiv; [| |exact S4']|]. apply in_occ_equiv; occ_tac. intro; reflexivity.
+    eapply Step_equiv; [| |exact S5]. apply in_occ_equiv; occ_tac. occ_tac.
+Qed.
+
+Lemma bop_union_ok h a b ta tb G h' r :
+  Inv h ((handles a ++ handles b) ++ G) -> repr h a ta -> repr h b tb ->
+  m_bop BUnion h a b = (h', r) -> bop_post h a b G (bop_apply BUnion ta tb) h' r.
+Proof.
+  intros I Ha Hb E. unfold m_bop in E.
+  assert (NOK : (h', r) = (drop2 h a b, None) -> bop_apply BUnion ta tb = None ->
+                bop_post h a b G (bop_apply BUnion ta tb) h' r).
+  { intros E1 E2. inversion E1; subst. rewrite E2. apply drop2_ok; auto. }
+  destruct (kind_of h a) as [ka|] eqn:KA.
+  2: { apply NOK; [symmetry; exact E|]. pose proof (kind_of_none _ _ _ Ha KA). destruct ta; auto. exfalso. eapply H; eauto. }
+  destruct (kind_of h b) as [kb|] eqn:KB.
+  2: { apply NOK; [symmetry; destruct ka; exact E|]. pose proof (kind_of_none _ _ _ Hb KB).
+       destruct ta as [| |k1 x1 d1|]; auto. destruct tb as [| |k2 x2 d2|]; try (destruct k1; reflexivity). exfalso. eapply H; eauto. }
+  destruct (kind_of_repr _ _ _ _ Ha KA) as [l1 [d1 [c1 [its1 [dv1 [Ea [Hc1 [Kc1 [Et1 [Hits1 Hd1]]]]]]]]]].
+  destruct (kind_of_repr _ _ _ _ Hb KB) as [l2 [d2 [c2 [its2 [dv2 [Eb [Hc2 [Kc2 [Et2 [Hits2 Hd2]]]]]]]]]].
+  subst a b ta tb. simpl ref_loc in E. simpl ref_dflt in E.
+  destruct ka; try (apply NOK; [symmetry; exact E | reflexivity]).
+  destruct kb; try (apply NOK; [symmetry; exact E | reflexivity]).
+  destruct (make_mut h l1) as [h1 la] eqn:MM1. destruct (make_mut h1 l2) as [h2 lb] eqn:MM2.
+  inversion E; subst; clear E.
+  rewrite <- Kc1 in Ha. rewrite <- Kc2 in Hb.
+  destruct (union_ok h l1 d1 c1 its1 dv1 l2 d2 c2 its2 dv2 G h1 la h2 lb I Ha Hb Hc1 Hc2 MM1 MM2) as [Hr5 S5].
+  unfold bop_post. simpl. rewrite Kc1 in Hr5. split; auto.
+Qed.
+
+(* the two elements of the right operand of |.. *)
+Definition not_pair (t : val) : Prop := forall k w, iter_vals t <> Some [k; w].
+
+Lemma pair_spec h b tb :
+  repr h b tb ->
+  match pair_of h b with
+  | Some (k, w) => exists tk tw, iter_vals tb = Some [tk; tw] /\ repr h k tk /\ repr h w tw /\
+                                 incl (handles w) (handles_heap h)
+  | None =>
+    match str_pair_of h b with
+    | Some (kb, wb) => exists tkb twb, iter_vals tb = Some [VSeq KStr [(nokey, tkb)] None; VSeq KStr [(nokey, twb)] None] /\
+                                       repr h kb tkb /\ repr h wb twb /\ incl (handles wb) (handles_heap h)
+    | None => not_pair tb
+    end
+  end.
+Proof.
+  intro Hb. unfold pair_of, str_pair_of.
+  destruct (kind_of h b) as [kb|] eqn:KB.
+  2: { intros k w Hx. pose proof (kind_of_none _ _ _ Hb KB). destruct tb; simpl in Hx; try discriminate. eapply H; eauto. }
+  destruct (kind_of_repr _ _ _ _ Hb KB) as [l2 [d2 [c2 [its2 [dv2 [Eb [Hc2 [Kc2 [Et2 [Hits2 Hd2]]]]]]]]]]. subst b tb.
+  simpl ref_loc. rewrite (items_of_eq _ _ _ Hc2).
+  assert (TWO : forall k1 k w1 w, citems c2 = [(k1, k); (w1, w)] ->
+          exists tk tw, its2 = [(k1, tk); (w1, tw)] /\ repr h k tk /\ repr h w tw /\ incl (handles w) (handles_heap h)).
+  { intros k1 k w1 w E2. rewrite E2 in Hits2. inversion Hits2; subst. inversion H4; subst. inversion H6; subst.
+    eexists; eexists. split; [reflexivity|]. split; auto. split; auto.
+    intros x Hx. eapply In_handles_heap; eauto. rewrite E2. unfold handles_items. simpl. rewrite app_nil_r. apply in_or_app. right; auto. }
+  assert (NOT2 : (forall k1 k w1 w, citems c2 <> [(k1, k); (w1, w)]) -> forall k w, map snd its2 <> [k; w]).
+  { intros N k w Hx. pose proof (repr_items_length _ _ _ Hits2) as L.
+    destruct its2 as [|[a1 b1] [|[a2 b2] [|]]]; simpl in Hx; try discriminate.
+    destruct (citems c2) as [|[x1 y1] [|[x2 y2] [|]]] eqn:EC; simpl in L; try discriminate.
+    eapply N; eauto. }
+  assert (SHAPE : (exists k1 k w1 w, citems c2 = [(k1, k); (w1, w)]) \/ (forall k1 k w1 w, citems c2 <> [(k1, k); (w1, w)])).
+  { destruct (citems c2) as [|[x1 y1] [|[x2 y2] [|]]]; try (right; intros; discriminate). left. eauto 6. }
+  assert (LISTLIKE : forall kk, (match kk with KList | KVec | KBytes => True | _ => False end) ->
+            match (match kk with
+                   | KList | KVec | KBytes => match citems c2 with [(_, k); (_, w)] => Some (k, w) | _ => None end
+                   | _ => None
+                   end) with
+            | Some (k, w) => exists tk tw, iter_vals (VSeq kk its2 dv2) = Some [tk; tw] /\ repr h k tk /\ repr h w tw /\
+                                           incl (handles w) (handles_heap h)
+            | None => match (match kk with KStr => match citems c2 with [(_, k); (_, w)] => Some (k, w) | _ => None end | _ => None end) with
+                      | Some (kb0, wb) => False
+                      | None => not_pair (VSeq kk its2 dv2)
+                      end
+            end).
+  { intros kk HK. destruct SHAPE as [[k1 [k [w1 [w E2]]]]|N].
+    - rewrite E2. destruct (TWO _ _ _ _ E2) as [tk [tw [Ei [A [B C]]]]]. subst its2.
+      destruct kk; try contradiction; exists tk, tw; simpl; auto.
+    - assert (X : match citems c2 with [(_, k); (_, w)] => Some (k, w) | _ => None end = None).
+      { destruct (citems c2) as [|[x1 y1] [|[x2 y2] [|]]]; auto. exfalso. eapply N; eauto. }
+      destruct kk; try contradiction; rewrite X; intros k w Hx; simpl in Hx; inversion Hx; eapply NOT2; eauto. }
+  destruct kb.
+  - pose proof (LISTLIKE KList I) as HL. simpl in HL.
+    destruct (match citems c2 with [(_, k); (_, w)] => Some (k, w) | _ => None end) as [[k w]|]; auto.
+  - intros k w Hx. simpl in Hx. discriminate.
+  - destruct SHAPE as [[k1 [k [w1 [w E2]]]]|N].
+    + rewrite E2. destruct (TWO _ _ _ _ E2) as [tk [tw [Ei [A [B C]]]]]. subst its2. exists tk, tw. simpl. auto.
+    + assert (X : match citems c2 with [(_, k); (_, w)] => Some (k, w) | _ => None end = None).
+      { destruct (citems c2) as [|[x1 y1] [|[x2 y2] [|]]]; auto. exfalso. eapply N; eauto. }
+      rewrite X. intros k w Hx. simpl in Hx. inversion Hx as [Hy].
+      assert (map snd its2 = [match k with VSeq _ [(_, e)] _ => e | _ => k end; match w with VSeq _ [(_, e)] _ => e | _ => w end]).
+      { clear - Hy. revert Hy. generalize its2. intro l. destruct l as [|[a1 b1] [|[a2 b2] [|]]]; simpl; intro Hz; try discriminate.
+        inversion Hz; subst. reflexivity. }
+      eapply NOT2; eauto.
+  - pose proof (LISTLIKE KVec I) as HL. simpl in HL.
+    destruct (match citems c2 with [(_, k); (_, w)] => Some (k, w) | _ => None end) as [[k w]|]; auto.
+  - pose proof (LISTLIKE KBytes I) as HL. simpl in HL.
+    destruct (match citems c2 with [(_, k); (_, w)] => Some (k, w) | _ => None end) as [[k w]|]; auto.
+Qed.
+
+Opaque alloc.
+Lemma bop_update_ok h a b ta tb G h' r :
+  Inv h ((handles a ++ handles b) ++ G) -> repr h a ta -> repr h b tb ->
+  m_bop BUpdate h a b = (h', r) -> bop_post h a b G (bop_apply BUpdate ta tb) h' r.
+Proof.
+  intros I Ha Hb E. unfold m_bop in E.
+  assert (NOK : (h', r) = (drop2 h a b, None) -> bop_apply BUpdate ta tb = None ->
+                bop_post h a b G (bop_apply BUpdate ta tb) h' r).
+  { intros E1 E2. inversion E1; subst. rewrite E2. apply drop2_ok; auto. }
+  assert (NOK2 : (h', r) = (drop2 h a b, None) -> bop_post h a b G None h' r).
+  { intros E1. inversion E1; subst. apply drop2_ok; auto. }
+  assert (SPECNONE : not_pair tb -> bop_apply BUpdate ta tb = None).
+  { intro NP. simpl. destruct (iter_vals tb) as [[|k [|w [|]]]|] eqn:EI; auto. exfalso. eapply NP; eauto. }
+  destruct (kind_of h a) as [ka|] eqn:KA.
+  2: { apply NOK; [symmetry; exact E|]. pose proof (kind_of_none _ _ _ Ha KA). simpl.
+       destruct (iter_vals tb) as [[|k [|w [|]]]|]; auto. destruct ta; auto. exfalso. eapply H; eauto. }
+  destruct (kind_of_repr _ _ _ _ Ha KA) as [l [d [c [its [dv [Ea [Hc [Kc [Et [Hits Hd]]]]]]]]]]. subst a ta.
+  simpl ref_loc in E. simpl ref_dflt in E.
+  pose proof (repr_items_length _ _ _ Hits) as Hlen.
+  pose proof (pair_spec h b tb Hb) as PS.
+  (* clone the new element out of the pair, release the pair *)
+  assert (TAKE : forall w tw, repr h w tw -> incl (handles w) (handles_heap h) ->
+            let h1 := drop_val (clone_val h w) b in
+            repr h1 w tw /\ repr h1 (HRef l d) (VSeq ka its dv) /\
+            Step h (handles (HRef l d) ++ handles b) G h1 (handles w ++ handles (HRef l d))).
+  { intros w tw Hw Iw h1.
+    assert (I' : Inv h ((handles b ++ handles (HRef l d)) ++ G)) by (eapply Inv_equiv; [|exact I]; occ_tac).
+    destruct (get_clone_drop h b w tw (handles (HRef l d)) G I') as [A [B C]]; auto.
+    { apply incl_appr. auto. }
+    split; auto. split.
+    - apply C; auto. apply incl_appl, incl_refl.
+    - eapply Step_equiv; [| |exact B]. apply in_occ_equiv; occ_tac. intro; reflexivity. }
+  destruct ka; try (apply NOK; [symmetry; exact E|]; simpl; destruct (iter_vals tb) as [[|k [|w [|]]]|]; reflexivity).
+  - (* list |.. [i, w] *)
+    destruct (pair_of h b) as [[k w]|] eqn:PO.
+    2: { apply NOK; [symmetry; exact E|].
+         destruct (str_pair_of h b) as [[kb wb]|].
+         - destruct PS as [tkb [twb [EI _]]]. simpl. rewrite EI. reflexivity.
+         - apply SPECNONE; auto. }
+    destruct PS as [tk [tw [EI [Hk [Hw Iw]]]]].
+    assert (SP : bop_apply BUpdate (VSeq KList its dv) tb =
+                 match tk with
+                 | VInt z => match norm_index (length its) z with
+                             | Some n => Some (VSeq KList (set_nth n tw its) dv)
+                             | None => None
+                             end
+                 | _ => None
+                 end) by (simpl; rewrite EI; reflexivity).
+    rewrite SP. clear SP.
+    destruct k as [|z| |]; inversion Hk; subst; try (apply NOK2; symmetry; exact E).
+    rewrite (items_of_eq _ _ _ Hc) in E. rewrite <- Hlen.
+    destruct (norm_index (length (citems c)) z) as [n|] eqn:NI.
+    2: { apply NOK2; symmetry; exact E. }
+    destruct (TAKE w tw Hw Iw) as [Hw1 [Ha1 S1]]. set (h1 := drop_val (clone_val h w) b) in *.
+    destruct (make_mut h1 l) as [h2 l'] eqn:MM.
+    destruct (repr_ref_inv _ _ _ _ _ _ Ha1) as [c1 [Hc1 [Kc1 [Hits1 Hd1]]]].
+    assert (I1 : Inv h1 ((l :: handles_opt d ++ handles w) ++ G)).
+    { rewrite handles_ref in S1. eapply Inv_equiv; [|apply S1]. occ_tac. }
+    rewrite Kc1 in Ha1.
+    destruct (make_mut_facts h1 _ G l d _ h2 l' I1 Ha1 MM) as [c0 [c2 [Hc0 [Hc2 [K2 [I2 [C2 _]]]]]]].
+    rewrite Hc1 in Hc0. inversion Hc0; subst c0.
+    rewrite (items_of_eq _ _ _ Hc2) in E. rewrite I2 in E.
+    assert (Ln : n < length (citems c1)).
+    { rewrite (repr_items_length _ _ _ Hits1). rewrite <- Hlen. eapply norm_index_lt; eauto. }
+    destruct (nth_item_lt (citems c1) n Ln) as [old Ho]. rewrite Ho in E. inversion E; subst; clear E.
+    destruct (replace_item_ok h1 l d c1 its dv n old w tw G h2 l' I1 Ha1 Hw1 Hc1 Ho MM) as [Hr3 S3].
+    rewrite <- Kc1 in Hr3. split; [exact Hr3|].
+    rewrite !handles_ref in *. eapply Step_trans; [exact S1|].
+    eapply Step_equiv; [| |exact S3]. apply in_occ_equiv; occ_tac. occ_tac.
+  - (* dict |.. [k, w] *)
+    destruct (pair_of h b) as [[k w]|] eqn:PO.
+    + destruct PS as [tk [tw [EI [Hk [Hw Iw]]]]].
+      assert (SP : bop_apply BUpdate (VSeq KDict its dv) tb =
+                   match key_of_val tk with Some kk => Some (VSeq KDict (put_key kk tw its) dv) | None => None end)
+        by (simpl; rewrite EI; reflexivity).
+      rewrite SP. clear SP. rewrite (hkey_repr _ _ _ Hk) in E.
+      destruct (key_of_val tk) as [kk|]; [|apply NOK2; symmetry; exact E].
+      destruct (TAKE w tw Hw Iw) as [Hw1 [Ha1 S1]]. set (h1 := drop_val (clone_val h w) b) in *.
+      destruct (make_mut h1 l) as [h2 l'] eqn:MM. inversion E; subst; clear E.
+      destruct (repr_ref_inv _ _ _ _ _ _ Ha1) as [c1 [Hc1 [Kc1 [Hits1 Hd1]]]].
+      assert (I1 : Inv h1 ((l :: handles_opt d ++ handles w) ++ G)).
+      { rewrite handles_ref in S1. eapply Inv_equiv; [|apply S1]. occ_tac. }
+      rewrite Kc1 in Ha1.
+      destruct (make_mut_facts h1 _ G l d _ h2 l' I1 Ha1 MM) as [c0 [c2 [Hc0 [Hc2 [K2 [I2 [C2 [Inv2 [S2 [Ha2 B2]]]]]]]]]].
+      rewrite Hc1 in Hc0. inversion Hc0; subst c0. clear Hc0.
+      assert (Hw2 : repr h2 w tw) by (eapply repr_ext; eauto).
+      rewrite <- K2 in Ha2.
+      destruct (m_put_key_ok h2 l' d c2 its dv kk w tw G Inv2 Ha2 Hw2 Hc2 C2) as [Hr3 S3].
+      rewrite K2, <- Kc1 in Hr3. split; [exact Hr3|].
+      rewrite !handles_ref in *. eapply Step_trans; [exact S1|].
+      eapply Step_trans; [eapply Step_equiv; [| |exact S2]|]. apply in_occ_equiv; occ_tac. intro; reflexivity.
+      eapply Step_equiv; [| |exact S3]. apply in_occ_equiv; occ_tac. occ_tac.
+    + destruct (str_pair_of h b) as [[kb wb]|] eqn:SPO.
+      2: { apply NOK; [symmetry; exact E|]. apply SPECNONE; auto. }
+      destruct PS as [tkb [twb [EI [Hkb [Hwb Iwb]]]]].
+      assert (SP : bop_apply BUpdate (VSeq KDict its dv) tb =
+                   match key_of_val (VSeq KStr [(nokey, tkb)] None) with
+                   | Some kk => Some (VSeq KDict (put_key kk (VSeq KStr [(nokey, twb)] None) its) dv)
+                   | None => None
+                   end) by (simpl; rewrite EI; reflexivity).
+      rewrite SP. clear SP.
+      destruct kb as [|zk| |]; inversion Hkb; subst; try (apply NOK2; symmetry; exact E).
+      destruct (alloc (clone_val h wb) KStr [(nokey, wb)]) as [h0 lw] eqn:EA.
+      destruct (make_mut (drop_val h0 b) l) as [h2 l'] eqn:MM. inversion E; subst; clear E.
+      (* the fresh one-character string *)
+      destruct (clone_val_step h (handles (HRef l d) ++ handles b) G wb I) as [Sc [Bc Lc]].
+      { apply incl_appr. auto. }
+      set (hc := clone_val h wb) in *.
+      assert (Ic : Inv hc ((handles_items [(nokey, wb)] ++ handles (HRef l d) ++ handles b) ++ G)).
+      { rewrite handles_items_single. apply Sc. }
+      destruct (alloc_step' hc (handles (HRef l d) ++ handles b) G KStr [(nokey, wb)] h0 lw EA Ic) as [Sa Ba].
+      assert (Hs0 : repr h0 (HRef lw None) (VSeq KStr [(nokey, twb)] None)).
+      { eapply alloc_repr; eauto. constructor; [|constructor]. eapply repr_ext; eauto. }
+      assert (Ha0 : repr h0 (HRef l d) (VSeq KDict its dv)).
+      { eapply repr_ext; [exact Ba|]. eapply repr_ext; eauto. }
+      assert (I0 : Inv h0 ((handles b ++ lw :: handles (HRef l d)) ++ G)).
+      { eapply Inv_equiv; [|apply Sa]. occ_tac. }
+      destruct (drop_val_keep h0 b (lw :: handles (HRef l d)) G I0) as [Sd Kd].
+      set (h1 := drop_val h0 b) in *.
+      assert (Hs1 : repr h1 (HRef lw None) (VSeq KStr [(nokey, twb)] None)).
+      { apply Kd; auto. rewrite handles_ref. simpl. intros x [Hx|[]]. left; auto. }
+      assert (Ha1 : repr h1 (HRef l d) (VSeq KDict its dv)).
+      { apply Kd; auto. apply incl_appl. apply incl_tl. apply incl_refl. }
+      destruct (repr_ref_inv _ _ _ _ _ _ Ha1) as [c1 [Hc1 [Kc1 [Hits1 Hd1]]]].
+      assert (I1 : Inv h1 ((l :: handles_opt d ++ handles (HRef lw None)) ++ G)).
+      { rewrite !handles_ref in *. simpl. eapply Inv_equiv; [|apply Sd]. occ_tac. }
+      rewrite Kc1 in Ha1.
+      destruct (make_mut_facts h1 _ G l d _ h2 l' I1 Ha1 MM) as [c0 [c2 [Hc0 [Hc2 [K2 [I2 [C2 [Inv2 [S2 [Ha2 B2]]]]]]]]]].
+      rewrite Hc1 in Hc0. inversion Hc0; subst c0. clear Hc0.
+      assert (Hs2 : repr h2 (HRef lw None) (VSeq KStr [(nokey, twb)] None)) by (eapply repr_ext; eauto).
+      rewrite <- K2 in Ha2.
+      destruct (m_put_key_ok h2 l' d c2 its dv (KB [zk]) (HRef lw None) _ G Inv2 Ha2 Hs2 Hc2 C2) as [Hr3 S3].
+      rewrite K2, <- Kc1 in Hr3. simpl. split; [exact Hr3|].
+      rewrite !handles_ref in *. simpl in *.
+      eapply Step_trans; [exact Sc|].
+      eapply Step_trans; [eapply Step_equiv; [| |exact Sa]|]. apply in_occ_equiv; occ_tac. intro; reflexivity.
+      eapply Step_trans; [eapply Step_equiv; [| |exact Sd]|]. apply in_occ_equiv; occ_tac. intro; reflexivity.
+      eapply Step_trans; [eapply Step_equiv; [| |exact S2]|]. apply in_occ_equiv; occ_tac. intro; reflexivity.
+      eapply Step_equiv; [| |exact S3]. apply in_occ_equiv; occ_tac. occ_tac.
+Qed.
+Transparent alloc.
+
 Definition bfrag (f : bop) : bool :=
-  match f with BAppend | BConcat | BPlus | BAddKey | BDelKey => true | BUnion | BUpdate => false end.
+  match f with BAppend | BConcat | BPlus | BAddKey | BDelKey | BUnion | BUpdate => true end.
 
 Lemma m_bop_ok f : bfrag f = true -> forall h a b ta tb G h' r,
   Inv h ((handles a ++ handles b) ++ G) -> repr h a ta -> repr h b tb ->
@@ -2633,6 +3054,8 @@ Proof.
   - eapply bop_plus_ok; eauto.
   - eapply bop_addkey_ok; eauto.
   - eapply bop_delkey_ok; eauto.
+  - eapply bop_union_ok; eauto.
+  - eapply bop_update_ok; eauto.
 Qed.
 
 (* ------------------------------------------------------------------ op-assign: drop_lhs, call, assign back *)
